@@ -188,10 +188,10 @@ def run_fault_seq(res, mb, bc, sizes, fault_at, slack, ctx=''):
 
 
 def run_seq(res, mb, bc, sizes, pre_active='', pre_backs=None, time_format=None, reopen_at=(), newline=False,
-            uni=False, ctx=''):
+            uni=False, ctx='', fname='out.log'):
     from circus.stream.file_stream import FileStream
     d = scratch()
-    path = os.path.join(d, 'out.log')
+    path = os.path.join(d, fname)
     hist = ''
     pre_backs = pre_backs or {}
     for idx in sorted(pre_backs, reverse=True):
@@ -324,6 +324,9 @@ def run_case(spec):
         args['reopen_at'] = tuple(rnd.sample(range(nw), min(nw, rnd.randint(1, 6))))
     if mode == 'uni':
         args['uni'] = True
+    if rnd.random() < .1:
+        # file names that are legal and look like format strings
+        args['fname'] = rnd.choice(['app-%Y%m%d.log', 'cpu100%.log', '%s.log', 'cpu%%.log', 'a b.log', 'ü.log', '%d'])
     nv = len(res.viol)
     r = run_seq(res, **args)
     for v in res.viol[nv:]:
